@@ -132,7 +132,14 @@ func encOptsFor(in *xInput, rng *mrand.Rand, spCert []byte, pub *rsa.PublicKey) 
 	case "not_multiple":
 		o.RawCipher = rnd(39)
 	case "pad_zero":
-		o.MutatePlain = func(p []byte) []byte { p[len(p)-1] = 0; return p }
+		// pad count 0; the filler octets are fixed (a random filler is, once in 256, itself a valid count)
+		o.MutatePlain = func(p []byte) []byte {
+			for i := 4; i < len(p)-1 && len(p) == 16; i++ {
+				p[i] = 0xEE
+			}
+			p[len(p)-1] = 0
+			return p
+		}
 	case "pad_big":
 		o.MutatePlain = func(p []byte) []byte { p[len(p)-1] = 255; return p }
 	case "all_zero":
